@@ -43,7 +43,8 @@ def greens_function(
 
     """
     residue = np.inf
-    num_moments = 10
+    # At least one expansion is computed, also when fewer than 10 moments are allowed.
+    num_moments = min(10, max_moments)
 
     while residue > atol:
         if num_moments > max_moments:
